@@ -2,13 +2,16 @@ module fhharness
 
 go 1.25.0
 
-require github.com/valyala/fasthttp v0.0.0
+require (
+	github.com/andybalholm/brotli v1.2.2
+	github.com/klauspost/compress v1.19.2
+	github.com/valyala/fasthttp v0.0.0
+)
 
 require (
-	github.com/andybalholm/brotli v1.2.2 // indirect
-	github.com/klauspost/compress v1.19.2 // indirect
 	github.com/valyala/bytebufferpool v1.0.0 // indirect
 	golang.org/x/net v0.58.0 // indirect
+	golang.org/x/sys v0.47.0 // indirect
 	golang.org/x/text v0.41.0 // indirect
 )
 
